@@ -74,7 +74,10 @@ impl<'a, T: Send + Sync> AtomicIter<&'a T> for ConIterOfSlice<'a, T> {
         let begin_idx = self
             .progress_and_get_begin_idx(n)
             .unwrap_or(self.initial_len());
-        let end_idx = (begin_idx + n).min(self.initial_len()).max(begin_idx);
+        let end_idx = begin_idx
+            .saturating_add(n)
+            .min(self.initial_len())
+            .max(begin_idx);
 
         match begin_idx.cmp(&end_idx) {
             Ordering::Equal => None,
